@@ -564,9 +564,113 @@ def f27_witness(ctx):
                       ["/u/cal/f27.ics"], got, finding="F27")
 
 
+def filter_structure_level(ctx):
+    """random filter trees (several filter elements, sibling comp-filters, prop-filters that hold or not, is-not-defined, unknown
+    elements, up to three levels, 0-2 time-ranges anywhere) against the model of `simplify_prefilters` and `comp_match`
+    (lean/RadicaleModel/Prefilter.lean); and, independent of the model, whenever the real function says "simple" the real
+    full evaluation equals the simplified condition"""
+    import vobject
+    import radicale.item as ritem
+    from radicale.item import filter as rfilter
+    from radicale import xmlutils
+    rng = ctx.rng("structure")
+    C = "urn:ietf:params:xml:ns:caldav"
+
+    def gen(level):
+        k = rng.random()
+        if level >= 3 or k < 0.3:
+            a = rng.choice([1704153600, 1704189600, 1704193200, 1704196800, 1704240000])
+            b = a + rng.choice([1, 1800, 3600, 86400])
+            return {"k": "tr", "fs": a, "fe": b}
+        if k < 0.45:
+            return {"k": "prop", "holds": rng.random() < 0.6}
+        if k < 0.5:
+            return {"k": "ind"}
+        if k < 0.55:
+            return {"k": "other"}
+        name = rng.choice(["VCALENDAR", "VEVENT", "VEVENT", "VTODO", "VJOURNAL", "VALARM", "vevent"] if level else ["VCALENDAR", "VCALENDAR", "VCALENDAR", "VEVENT"])
+        return {"k": "comp", "name": name, "ch": [gen(level + 1) for _ in range(rng.choice([0, 1, 1, 1, 2, 3]))]}
+
+    def to_xml(f, level=0):
+        if f["k"] == "tr":
+            return '<C:time-range start="%s" end="%s"/>' % (fmt_dt(f["fs"]), fmt_dt(f["fe"]))
+        if f["k"] == "prop":
+            # a property that exists at that level (VERSION of the VCALENDAR, UID of the component) or one that does not
+            return '<C:prop-filter name="%s"/>' % (("VERSION" if level <= 1 else "UID") if f["holds"] else "X-NOT-THERE")
+        if f["k"] == "ind":
+            return "<C:is-not-defined/>"
+        if f["k"] == "other":
+            return "<C:frobnicate/>"
+        return '<C:comp-filter name="%s">%s</C:comp-filter>' % (f["name"], "".join(to_xml(c, level + 1) for c in f["ch"]))
+
+    def upper(f):
+        return dict(f, name=f["name"].upper(), ch=[upper(c) for c in f["ch"]]) if f["k"] == "comp" else f
+    for i in range(ctx.n(300, 20000)):
+        o = gen_object(rng, 900000 + i)
+        try:
+            v = vobject.readOne(o["text"])
+            ritem.check_and_sanitize_items([v], tag="VCALENDAR")
+            item = ritem.Item(collection_path="u/cal", vobject_item=v)
+        except Exception:
+            continue
+        nfil = rng.choice([1, 1, 1, 2])
+        filters, trees = [], []
+        for _ in range(nfil):
+            tops = [gen(0) for _ in range(rng.choice([0, 1, 1, 1, 2]))]
+            for t in tops:
+                if t["k"] == "comp" and rng.random() < 0.7:
+                    t["name"] = "VCALENDAR"
+                    if t["ch"] and t["ch"][0]["k"] == "comp" and rng.random() < 0.6:
+                        t["ch"][0]["name"] = o["kind"]
+            trees += tops
+            filters.append(ET.fromstring('<C:filter xmlns:C="%s" xmlns:D="DAV:">%s</C:filter>' % (C, "".join(to_xml(t) for t in tops))))
+        # the real functions
+        rtag, rs, re_, rsimple = rfilter.simplify_prefilters(filters, "VCALENDAR")
+        real_matches = []
+        for fel in filters:
+            for top in fel:
+                try:
+                    real_matches.append(bool(rfilter.comp_match(item, top)) if top.tag == xmlutils.make_clark("C:comp-filter") else "raises")
+                except ValueError:
+                    real_matches.append("raises")
+                except Exception as e:
+                    real_matches.append("error:%s" % type(e).__name__)
+        # time_range_match of the item for each range that occurs (the model takes it as given)
+        table = []
+
+        def walk(f):
+            if f["k"] == "tr":
+                tel = ET.fromstring('<C:time-range xmlns:C="%s" start="%s" end="%s"/>' % (C, fmt_dt(f["fs"]), fmt_dt(f["fe"])))
+                table.append([f["fs"], f["fe"], bool(rfilter.time_range_match(item.vobject_item, tel, item.component_name))])
+            for c in f.get("ch", []):
+                walk(c)
+        for t in trees:
+            walk(t)
+        case = {"filter": [to_xml(t) for t in trees], "filters": nfil, "object_kind": o["kind"]}
+        ctx.case("structure:%s" % ("simple" if rsimple else "not-simple"), sample=dict(case, simplified=[rtag, rs, re_, rsimple]), key=["fs", i], nontrivial=rsimple)
+        # model-independent: "simple" must mean that the simplified condition equals the full evaluation
+        if rsimple and "raises" not in real_matches and not any(str(m).startswith("error") for m in real_matches):
+            full = all(real_matches)
+            tel = ET.fromstring('<C:time-range xmlns:C="%s" start="%s" end="%s"/>' % (C, fmt_dt(rs), fmt_dt(re_))) if (rs, re_) != (TMIN, TMAX) else None
+            simp = (rtag is None or rtag == item.component_name) and (tel is None or bool(rfilter.time_range_match(item.vobject_item, tel, item.component_name)))
+            if full != simp:
+                ctx.violation("simplify_prefilters calls this filter simple, but the filter says %s and the simplified condition (%s, %s..%s) says %s"
+                              % (full, rtag, rs, re_, simp), dict(case, object=o["text"]), full, simp)
+        if ctx.driver:
+            a = ctx.driver.ask1({"m": "prefilter", "flat": [upper(t) for t in trees], "coll_tag": "VCALENDAR", "tmin": TMIN, "tmax": TMAX,
+                                 "item": {"name": "VCALENDAR", "component": item.component_name or "", "tr": table}})
+            model = [a["tag"], a["fs"], a["fe"], a["simple"]]
+            if model != [rtag, rs, re_, rsimple]:
+                ctx.disagree("simplify_prefilters vs model", case, [rtag, rs, re_, rsimple], model)
+            if nfil == 1 or all(len(list(f)) for f in filters):
+                if a["matches"] != real_matches and not any(str(m).startswith("error") for m in real_matches):
+                    ctx.disagree("comp_match of each filter element vs model", case, real_matches, a["matches"])
+
+
 def run(ctx):
     known_witnesses(ctx)
     f27_witness(ctx)
+    filter_structure_level(ctx)
     ctx.extra["rule"] = ("VEVENT/VTODO/VJOURNAL from the grammar (DATE or UTC start; DTEND/DURATION/neither; DAILY|WEEKLY x INTERVAL x "
                          "COUNT|UNTIL|unbounded; EXDATE; the eight VTODO combinations) x ranges whose ends sit at, 1 s before and 1 s after "
                          "every boundary, open-ended ones included; each filter also with an always-true condition before / after the "
